@@ -20,11 +20,11 @@
 // @h c17_has_impl_enum_000 tier=both
 // @h c17_has_impl_enum_001 tier=both
 // @h c17_has_impl_enum_010 tier=both
-// @h c17_has_impl_enum_011 tier=both
+// @h c17_has_impl_enum_011 tier=thorough
 // @h c17_has_impl_enum_100 tier=both
-// @h c17_has_impl_enum_101 tier=both
-// @h c17_has_impl_enum_110 tier=both
-// @h c17_has_impl_enum_111 tier=both
+// @h c17_has_impl_enum_101 tier=thorough
+// @h c17_has_impl_enum_110 tier=thorough
+// @h c17_has_impl_enum_111 tier=thorough
 // @canary canary_c17_has_impl
 //
 // C17 -- "has_impl(X) being true implies the type implements X", for the built-in kinds
